@@ -35,12 +35,14 @@ def _doc():
                                   "mpos": st.integers(0, 8)})
 
 
-def strategy(tier):
+def strategy(tier, repeat=None):
     p = G.Profile(doc=_doc(), kinds={"class", "attr", "member", "func", "set", "generic", "parseargs", "block"},
                   max_items=5 if tier == "quick" else 7, depth=3 if tier == "quick" else 5, dangling=False, groups=False, impl_doc=True, dups=2,
                   moddoc=False, body_max=3, tests=False,
                   weights={"class": 5, "member": 2, "attr": 2, "func": 1})
-    return st.fixed_dictionaries({"module": G.module(p), "layout": G.layout_choices(24),
+    if repeat is not None:
+        p.p_doc_mostly = True
+    return st.fixed_dictionaries({"module": G.module(p, repeat), "layout": G.layout_choices(24),
                                   "settings": st.fixed_dictionaries({"strip": st.fixed_dictionaries({
                                       "member": st.sampled_from(PATTERNS), "function": st.sampled_from(["", "^zz"]),
                                       "macro": st.just("")})}),
@@ -92,6 +94,12 @@ def _shape(items, depth, stats):
                 stats["types<params" if n_t < n_p else "types>params" if n_t > n_p else "types=params"] += 1
         elif it["k"] == "block":
             _shape(it["body"], depth, stats)
+
+
+def extra(ctx):
+    """A few modules of hundreds of items: the drawn item list is tiled 25..45 times, every copy with names of its own."""
+    from .common import large_campaign
+    large_campaign(ctx, strategy("quick", repeat=st.integers(25, 45)), evaluate, 4 if ctx.tier == "quick" else 32)
 
 
 def evaluate(case):
